@@ -174,6 +174,22 @@ CLAIMS["C12"] = dict(
     design_ref="DESIGN.md §3 C12",
 )
 
+CLAIMS["C14"] = dict(
+    technique="exact-arithmetic relations between literal tables; symbolic matrix algebra laws; symbolic substitution of k·white into conversion normal forms",
+    category="other",
+    text=("All 16 white point literals equal the ASTM E308 / CIE 15 table; each RgbSpace's hard-coded matrices are mutual inverses, equal the "
+          "matrix derived from the standard's primaries and white point, have the white point as row sums (RGB(1,1,1) -> white) and luma "
+          "literals equal to the Y row; von Kries / Bradford / unit LMS, CAM16 M16 and Oklab M1/M2 are inverse pairs (exact rational "
+          "arithmetic, tolerances above the 7-digit rounding of the literals). Symbolically, for all inputs: multiply_3x3(_and_vec3) are the "
+          "matrix products, a·matrix_inverse(a) = I for every invertible 3x3, Matrix3::then(a,b) applies a then b, identity is neutral, "
+          "invert uses matrix_inverse, diagonal_matrix = diag(dst/src per cone), adaptation_matrix = to-LMS(input) ▸ diag ▸ from-LMS(output) "
+          "with one method, equal white points return the input - hence the source white maps onto the destination white. For xyz = k·white "
+          "(all k>0, all white points) Lab gives a=b=0, Luv u=v=0, L*=100 at k=1, zero (a,b) gives zero chroma, Luma->Rgb fills three equal "
+          "channels; Oklab of the D65 literal is (1,0,0) within 5e-4 (computed residual 3.7e-5). Not decided: CAM16 J=100 for the adopted "
+          "white, floating-point residuals of round trips."),
+    design_ref="DESIGN.md §3 C14",
+)
+
 NOT_YET = "check under construction (see DESIGN.md §7 build order); will be claimed when its rule is armed"
 NA = {}
 
